@@ -1,5 +1,919 @@
-//! C22 harness (stub: not implemented yet).
+//! C22 — CRDT merges are associative, commutative and idempotent; LWW structures expose the greatest
+//! clock, insertion wins at equal clocks.
+//!
+//! Case input: `<type> <A> <B> <C>` — three construction scripts (see `lean/HeartwoodModel/Driver/C22.lean`
+//! for the syntax) that are run on the REAL `radicle-crdt` types. Output:
+//! `<a> <b> <c> <a∨b> <(a∨b)∨c> <bits>` with bits `a==b, ab==ba, (ab)c==a(bc), aa==a, ab==a, abc==ab`
+//! (Rust `==`). `LWWMap`/`LWWSet` hide their registers; their clocks are recovered through the public API by
+//! probing clones (`remove(k, c')` / `insert(k, _, c')` for increasing `c'`).
+//!
+//! Oracle (the property statement on what the real code did, independent of the model):
+//! * every order and bracketing of `a ∨ b ∨ c` gives `==` results; `x ∨ x == x` for operands and joins
+//!   (`not-commutative`, `not-associative`, `not-idempotent`);
+//! * for `LWWReg`, `LWWMap`, `LWWSet` (and the open-coded `GMap<_, LWWReg<Option<_>>>`): what `get` exposes for
+//!   a key in `a`, `b`, `c`, `a∨b`, `a∨b∨c` is the join of the values written with the greatest clock among
+//!   the writes of the scripts involved; an insertion at that clock is never hidden by a removal at that
+//!   clock (`lww-not-max-clock`, `lww-remove-beats-insert`); `contains_key`/`iter`/`len`/`is_empty`
+//!   agree with `get` (`lww-view-inconsistent`);
+//! * no panic (`panic`).
+
+use radicle_crdt::{GMap, GSet, LWWMap, LWWReg, LWWSet, Lamport, Max, Min, Redactable, Semilattice};
+use verif_common::*;
+
+/// Greatest clock accepted in `LWWMap`/`LWWSet` scripts (clocks are probed up to `CL + 1`).
+const CL: u8 = 60;
+
+type Viol = Vec<(String, String)>;
+
+fn p8(s: &str) -> Option<u8> {
+    if s.is_empty() || !s.bytes().all(|b| b.is_ascii_digit()) {
+        return None;
+    }
+    s.parse().ok()
+}
+
+fn show_list(parts: Vec<String>) -> String {
+    if parts.is_empty() {
+        "-".into()
+    } else {
+        parts.join(";")
+    }
+}
+
+// ---------------------------------------------------------------------------------------------
+// Element types: values that can sit inside a register or a map.
+
+trait Elem: Semilattice + Clone + PartialEq {
+    fn parse(s: &str) -> Option<Self>;
+    fn show(&self) -> String;
+    /// Any value (used to probe tombstones).
+    fn sample() -> Self;
+    /// The single writes `(value, clock)` a script of this type consists of, when it is a register.
+    fn reg_check(&self, _scripts: &[&str], _label: &str, _viol: &mut Viol, _tags: &mut Vec<String>) {}
+}
+
+impl Elem for Max<u8> {
+    fn parse(s: &str) -> Option<Self> {
+        p8(s).map(Max::from)
+    }
+    fn show(&self) -> String {
+        self.get().to_string()
+    }
+    fn sample() -> Self {
+        Max::from(0)
+    }
+}
+
+impl Elem for Min<u8> {
+    fn parse(s: &str) -> Option<Self> {
+        p8(s).map(Min)
+    }
+    fn show(&self) -> String {
+        self.0.to_string()
+    }
+    fn sample() -> Self {
+        Min(0)
+    }
+}
+
+impl Elem for bool {
+    fn parse(s: &str) -> Option<Self> {
+        match s {
+            "0" => Some(false),
+            "1" => Some(true),
+            _ => None,
+        }
+    }
+    fn show(&self) -> String {
+        (*self as u8).to_string()
+    }
+    fn sample() -> Self {
+        false
+    }
+}
+
+impl Elem for () {
+    fn parse(s: &str) -> Option<Self> {
+        (s == "u").then_some(())
+    }
+    fn show(&self) -> String {
+        "u".into()
+    }
+    fn sample() -> Self {}
+}
+
+impl<E: Elem> Elem for Option<E> {
+    fn parse(s: &str) -> Option<Self> {
+        if s == "-" {
+            Some(None)
+        } else {
+            E::parse(s).map(Some)
+        }
+    }
+    fn show(&self) -> String {
+        match self {
+            None => "-".into(),
+            Some(e) => e.show(),
+        }
+    }
+    fn sample() -> Self {
+        Some(E::sample())
+    }
+}
+
+impl Elem for Redactable<u8> {
+    fn parse(s: &str) -> Option<Self> {
+        if s == "R" {
+            Some(Redactable::Redacted)
+        } else {
+            p8(s).map(Redactable::Present)
+        }
+    }
+    fn show(&self) -> String {
+        match self {
+            Redactable::Redacted => "R".into(),
+            Redactable::Present(n) => n.to_string(),
+        }
+    }
+    fn sample() -> Self {
+        Redactable::Present(0)
+    }
+}
+
+fn parse_vc<V: Elem>(s: &str) -> Option<(V, u8)> {
+    let (v, c) = s.split_once('@')?;
+    Some((V::parse(v)?, p8(c)?))
+}
+
+fn parse_reg_ops<V: Elem>(s: &str) -> Option<Vec<(V, u8)>> {
+    s.split(';').map(parse_vc::<V>).collect()
+}
+
+/// Join (with the value type's own merge) of the values written at the greatest clock.
+fn expected_reg<V: Semilattice + Clone>(writes: &[(V, u8)]) -> Option<(V, u8, usize)> {
+    let cm = writes.iter().map(|w| w.1).max()?;
+    let mut it = writes.iter().filter(|w| w.1 == cm).map(|w| w.0.clone());
+    let first = it.next()?;
+    let n = writes.iter().filter(|w| w.1 == cm).count();
+    Some((it.fold(first, |a, b| a.join(b)), cm, n))
+}
+
+impl<V: Elem> Elem for LWWReg<V, u8> {
+    fn parse(s: &str) -> Option<Self> {
+        let ops = parse_reg_ops::<V>(s)?;
+        let mut it = ops.into_iter();
+        let (v, c) = it.next()?;
+        let mut r = LWWReg::new(v, c);
+        for (v, c) in it {
+            r.set(v, c);
+        }
+        Some(r)
+    }
+    fn show(&self) -> String {
+        format!("{}@{}", self.get().show(), self.clock().get())
+    }
+    fn sample() -> Self {
+        LWWReg::new(V::sample(), 0)
+    }
+    fn reg_check(&self, scripts: &[&str], label: &str, viol: &mut Viol, tags: &mut Vec<String>) {
+        let mut writes = vec![];
+        for s in scripts {
+            writes.extend(parse_reg_ops::<V>(s).unwrap_or_default());
+        }
+        if let Some((v, c, n)) = expected_reg(&writes) {
+            if n > 1 {
+                tags.push("tie-at-max-clock".into());
+            }
+            if *self.clock().get() != c || *self.get() != v {
+                viol.push((
+                    "lww-not-max-clock".into(),
+                    format!("{label}: register exposes {} but the writes {scripts:?} have join {}@{c} at the greatest clock", self.show(), v.show()),
+                ));
+            }
+        }
+    }
+}
+
+// ---------------------------------------------------------------------------------------------
+// Top-level CRDT types under test.
+
+trait Crdt: Semilattice + Clone + PartialEq {
+    fn build(s: &str) -> Option<Self>;
+    fn render(&self, keys: &[u8]) -> String;
+    /// Keys a script mentions (the probe universe of `LWWMap`/`LWWSet`).
+    fn keys(_script: &str) -> Vec<u8> {
+        vec![]
+    }
+    /// LWW clauses of the property, on the state `self` obtained by joining the values of `scripts`.
+    fn view_oracle(&self, _scripts: &[&str], _keys: &[u8], _label: &str, _viol: &mut Viol, _tags: &mut Vec<String>) {}
+}
+
+macro_rules! crdt_for_elem {
+    ($($t:ty),*) => {$(
+        impl Crdt for $t {
+            fn build(s: &str) -> Option<Self> { <$t as Elem>::parse(s) }
+            fn render(&self, _keys: &[u8]) -> String { self.show() }
+            fn view_oracle(&self, scripts: &[&str], _keys: &[u8], label: &str, viol: &mut Viol, tags: &mut Vec<String>) {
+                self.reg_check(scripts, label, viol, tags)
+            }
+        }
+    )*};
+}
+crdt_for_elem!(
+    Max<u8>,
+    Min<u8>,
+    bool,
+    (),
+    Option<Max<u8>>,
+    Redactable<u8>,
+    Option<Redactable<u8>>,
+    LWWReg<Max<u8>, u8>,
+    LWWReg<Min<u8>, u8>,
+    LWWReg<Redactable<u8>, u8>,
+    LWWReg<Option<Max<u8>>, u8>
+);
+
+fn parse_kv<V: Elem>(s: &str) -> Option<Vec<(u8, V)>> {
+    if s == "-" {
+        return Some(vec![]);
+    }
+    s.split(';')
+        .map(|e| {
+            let (k, v) = e.split_once('=')?;
+            Some((p8(k)?, V::parse(v)?))
+        })
+        .collect()
+}
+
+impl<V: Elem> Crdt for GMap<u8, V> {
+    fn build(s: &str) -> Option<Self> {
+        let mut m = GMap::default();
+        for (k, v) in parse_kv::<V>(s)? {
+            m.insert(k, v);
+        }
+        Some(m)
+    }
+    fn render(&self, _keys: &[u8]) -> String {
+        show_list(self.iter().map(|(k, v)| format!("{k}={}", v.show())).collect())
+    }
+    fn view_oracle(&self, scripts: &[&str], _keys: &[u8], label: &str, viol: &mut Viol, tags: &mut Vec<String>) {
+        // only meaningful when `V` is a register: per key, the writes to that key
+        let mut all: Vec<(u8, &str)> = vec![];
+        for s in scripts {
+            if *s != "-" {
+                for e in s.split(';') {
+                    if let Some((k, v)) = e.split_once('=') {
+                        if let Some(k) = p8(k) {
+                            all.push((k, v));
+                        }
+                    }
+                }
+            }
+        }
+        for (k, v) in self.iter() {
+            let mine: Vec<&str> = all.iter().filter(|(k2, _)| k2 == k).map(|(_, v)| *v).collect();
+            v.reg_check(&mine, &format!("{label}[{k}]"), viol, tags);
+        }
+    }
+}
+
+impl Crdt for GSet<u8> {
+    fn build(s: &str) -> Option<Self> {
+        let mut m = GSet::default();
+        if s != "-" {
+            for k in s.split(';') {
+                m.insert(p8(k)?);
+            }
+        }
+        Some(m)
+    }
+    fn render(&self, _keys: &[u8]) -> String {
+        show_list(self.iter().map(|k| k.to_string()).collect())
+    }
+}
+
+/// `+k=v@c` / `!k@c`; a removal is `(k, None, c)`.
+fn parse_map_ops<V: Elem>(s: &str) -> Option<Vec<(u8, Option<V>, u8)>> {
+    if s == "-" {
+        return Some(vec![]);
+    }
+    s.split(';')
+        .map(|op| {
+            let w = if let Some(rest) = op.strip_prefix('+') {
+                let (k, vc) = rest.split_once('=')?;
+                let (v, c) = parse_vc::<V>(vc)?;
+                (p8(k)?, Some(v), c)
+            } else if let Some(rest) = op.strip_prefix('!') {
+                let (k, c) = rest.split_once('@')?;
+                (p8(k)?, None, p8(c)?)
+            } else {
+                return None;
+            };
+            (w.2 <= CL).then_some(w)
+        })
+        .collect()
+}
+
+/// `+k@c` / `!k@c`
+fn parse_set_ops(s: &str) -> Option<Vec<(u8, Option<()>, u8)>> {
+    if s == "-" {
+        return Some(vec![]);
+    }
+    s.split(';')
+        .map(|op| {
+            let (ins, rest) = if let Some(r) = op.strip_prefix('+') {
+                (true, r)
+            } else if let Some(r) = op.strip_prefix('!') {
+                (false, r)
+            } else {
+                return None;
+            };
+            let (k, c) = rest.split_once('@')?;
+            let c = p8(c)?;
+            (c <= CL).then_some((p8(k)?, ins.then_some(()), c))
+        })
+        .collect()
+}
+
+/// The LWW clauses for one key: `writes` are the writes to the key, `actual` what `get` exposes.
+fn lww_key_check<V: Semilattice + Clone + PartialEq>(
+    k: u8,
+    writes: &[(Option<V>, u8)],
+    actual: Option<&V>,
+    show: impl Fn(Option<&V>) -> String,
+    label: &str,
+    viol: &mut Viol,
+    tags: &mut Vec<String>,
+) {
+    let Some(cm) = writes.iter().map(|w| w.1).max() else {
+        if actual.is_some() {
+            viol.push(("lww-not-max-clock".into(), format!("{label}: key {k} was never written but is exposed")));
+        }
+        return;
+    };
+    let at: Vec<&Option<V>> = writes.iter().filter(|w| w.1 == cm).map(|w| &w.0).collect();
+    let mut ins = at.iter().filter_map(|v| v.as_ref().cloned());
+    let removed = at.iter().any(|v| v.is_none());
+    let n_ins = at.iter().filter(|v| v.is_some()).count();
+    let expected: Option<V> = ins.next().map(|first| ins.fold(first, |a, b| a.join(b)));
+    if at.len() > 1 {
+        tags.push("tie-at-max-clock".into());
+    }
+    if removed && n_ins > 0 {
+        tags.push("insert-remove-tie".into());
+    }
+    if n_ins > 1 {
+        tags.push("insert-insert-tie".into());
+    }
+    if actual != expected.as_ref() {
+        let class = if expected.is_some() && actual.is_none() && removed { "lww-remove-beats-insert" } else { "lww-not-max-clock" };
+        viol.push((
+            class.into(),
+            format!(
+                "{label}: key {k}: exposes {} but the writes at the greatest clock {cm} join to {}",
+                show(actual),
+                show(expected.as_ref())
+            ),
+        ));
+    }
+}
+
+impl<V: Elem> Crdt for LWWMap<u8, V, u8> {
+    fn build(s: &str) -> Option<Self> {
+        let mut m = LWWMap::default();
+        for (k, v, c) in parse_map_ops::<V>(s)? {
+            match v {
+                Some(v) => m.insert(k, v, c),
+                None => m.remove(k, c),
+            }
+        }
+        Some(m)
+    }
+    fn keys(script: &str) -> Vec<u8> {
+        parse_map_ops::<V>(script).unwrap_or_default().iter().map(|w| w.0).collect()
+    }
+    fn render(&self, keys: &[u8]) -> String {
+        let mut parts = vec![];
+        for &k in keys {
+            match self.get(&k) {
+                Some(v) => {
+                    // the hidden clock is one less than the least removal clock that hides the key
+                    let mut c = "inf".to_string();
+                    for cp in 0..=CL + 1 {
+                        let mut m = self.clone();
+                        m.remove(k, cp);
+                        if m.get(&k).is_none() {
+                            c = (cp as i32 - 1).to_string();
+                            break;
+                        }
+                    }
+                    parts.push(format!("{k}={}@{c}", v.show()));
+                }
+                None => {
+                    // the clock of a tombstone is the least insertion clock that shows the key
+                    let mut c = None;
+                    for cp in 0..=CL + 1 {
+                        let mut m = self.clone();
+                        m.insert(k, V::sample(), cp);
+                        if m.get(&k).is_some() {
+                            c = Some(cp);
+                            break;
+                        }
+                    }
+                    match c {
+                        Some(0) => {}
+                        Some(c) => parts.push(format!("{k}=-@{c}")),
+                        None => parts.push(format!("{k}=-@inf")),
+                    }
+                }
+            }
+        }
+        show_list(parts)
+    }
+    fn view_oracle(&self, scripts: &[&str], keys: &[u8], label: &str, viol: &mut Viol, tags: &mut Vec<String>) {
+        let mut all = vec![];
+        for s in scripts {
+            all.extend(parse_map_ops::<V>(s).unwrap_or_default());
+        }
+        let mut visible = vec![];
+        for &k in keys {
+            let writes: Vec<(Option<V>, u8)> = all.iter().filter(|w| w.0 == k).map(|w| (w.1.clone(), w.2)).collect();
+            let actual = self.get(&k);
+            lww_key_check(k, &writes, actual, |v| v.map(|v| v.show()).unwrap_or("nothing".into()), label, viol, tags);
+            if self.contains_key(&k) != actual.is_some() {
+                viol.push(("lww-view-inconsistent".into(), format!("{label}: contains_key({k}) disagrees with get")));
+            }
+            if actual.is_some() {
+                visible.push(k);
+            }
+        }
+        let it: Vec<u8> = self.iter().map(|(k, _)| *k).collect();
+        if it != visible || self.len() != visible.len() || self.is_empty() != visible.is_empty() {
+            viol.push(("lww-view-inconsistent".into(), format!("{label}: iter/len/is_empty disagree with get: {it:?} vs {visible:?}")));
+        }
+    }
+}
+
+impl Crdt for LWWSet<u8, Lamport> {
+    fn build(s: &str) -> Option<Self> {
+        let mut m = LWWSet::default();
+        for (k, v, c) in parse_set_ops(s)? {
+            match v {
+                Some(()) => m.insert(k, Lamport::from(c as u64)),
+                None => m.remove(k, Lamport::from(c as u64)),
+            }
+        }
+        Some(m)
+    }
+    fn keys(script: &str) -> Vec<u8> {
+        parse_set_ops(script).unwrap_or_default().iter().map(|w| w.0).collect()
+    }
+    fn render(&self, keys: &[u8]) -> String {
+        let mut parts = vec![];
+        for &k in keys {
+            if self.contains(&k) {
+                let mut c = "inf".to_string();
+                for cp in 0..=CL + 1 {
+                    let mut m = self.clone();
+                    m.remove(k, Lamport::from(cp as u64));
+                    if !m.contains(&k) {
+                        c = (cp as i32 - 1).to_string();
+                        break;
+                    }
+                }
+                parts.push(format!("+{k}@{c}"));
+            } else {
+                let mut c = None;
+                for cp in 0..=CL + 1 {
+                    let mut m = self.clone();
+                    m.insert(k, Lamport::from(cp as u64));
+                    if m.contains(&k) {
+                        c = Some(cp);
+                        break;
+                    }
+                }
+                match c {
+                    Some(0) => {}
+                    Some(c) => parts.push(format!("!{k}@{c}")),
+                    None => parts.push(format!("!{k}@inf")),
+                }
+            }
+        }
+        show_list(parts)
+    }
+    fn view_oracle(&self, scripts: &[&str], keys: &[u8], label: &str, viol: &mut Viol, tags: &mut Vec<String>) {
+        let mut all = vec![];
+        for s in scripts {
+            all.extend(parse_set_ops(s).unwrap_or_default());
+        }
+        let mut visible = vec![];
+        for &k in keys {
+            let writes: Vec<(Option<()>, u8)> = all.iter().filter(|w| w.0 == k).map(|w| (w.1, w.2)).collect();
+            let actual = self.contains(&k).then_some(());
+            lww_key_check(k, &writes, actual.as_ref(), |v| if v.is_some() { "present".into() } else { "absent".into() }, label, viol, tags);
+            if actual.is_some() {
+                visible.push(k);
+            }
+        }
+        let it: Vec<u8> = self.iter().copied().collect();
+        if it != visible || self.is_empty() != visible.is_empty() {
+            viol.push(("lww-view-inconsistent".into(), format!("{label}: iter/is_empty disagree with contains: {it:?} vs {visible:?}")));
+        }
+    }
+}
+
+// ---------------------------------------------------------------------------------------------
+
+fn run_typed<T: Crdt>(ty: &str, sa: &str, sb: &str, sc: &str) -> Outcome {
+    let r = catch(|| {
+        let (Some(a), Some(b), Some(c)) = (T::build(sa), T::build(sb), T::build(sc)) else {
+            return None;
+        };
+        let mut keys: Vec<u8> = [sa, sb, sc].iter().flat_map(|s| T::keys(s)).collect();
+        keys.sort();
+        keys.dedup();
+        let j = |x: &T, y: &T| x.clone().join(y.clone());
+        let ab = j(&a, &b);
+        let ba = j(&b, &a);
+        let abc = j(&ab, &c);
+        let a_bc = j(&a, &j(&b, &c));
+        let mut viol: Viol = vec![];
+        let mut tags = vec![ty.to_string()];
+        // ---- oracle: the three laws, on the real type with Rust `==`
+        let ops = [(&a, "a"), (&b, "b"), (&c, "c")];
+        for (i, (x, nx)) in ops.iter().enumerate() {
+            for (y, ny) in ops.iter().skip(i + 1) {
+                if j(x, y) != j(y, x) {
+                    viol.push(("not-commutative".into(), format!("{nx}∨{ny} != {ny}∨{nx}")));
+                }
+            }
+        }
+        let perms = [[0, 1, 2], [0, 2, 1], [1, 0, 2], [1, 2, 0], [2, 0, 1], [2, 1, 0]];
+        for p in perms {
+            let (x, y, z) = (ops[p[0]].0, ops[p[1]].0, ops[p[2]].0);
+            let l = j(&j(x, y), z);
+            let r = j(x, &j(y, z));
+            if l != r {
+                viol.push(("not-associative".into(), format!("({0}∨{1})∨{2} != {0}∨({1}∨{2})", ops[p[0]].1, ops[p[1]].1, ops[p[2]].1)));
+            } else if l != abc {
+                // equal bracketings but a different result than (a∨b)∨c: some order matters
+                viol.push(("not-commutative".into(), format!("({}∨{})∨{} != (a∨b)∨c", ops[p[0]].1, ops[p[1]].1, ops[p[2]].1)));
+            }
+        }
+        for (x, n) in [(&a, "a"), (&b, "b"), (&c, "c"), (&ab, "a∨b"), (&abc, "a∨b∨c")] {
+            if j(x, x) != *x {
+                viol.push(("not-idempotent".into(), format!("{n}∨{n} != {n}")));
+            }
+        }
+        // ---- oracle: LWW clauses
+        a.view_oracle(&[sa], &keys, "a", &mut viol, &mut tags);
+        b.view_oracle(&[sb], &keys, "b", &mut viol, &mut tags);
+        c.view_oracle(&[sc], &keys, "c", &mut viol, &mut tags);
+        ab.view_oracle(&[sa, sb], &keys, "a∨b", &mut viol, &mut tags);
+        abc.view_oracle(&[sa, sb, sc], &keys, "a∨b∨c", &mut viol, &mut tags);
+        // ---- canonical output
+        let bits: String = [a == b, ab == ba, abc == a_bc, j(&a, &a) == a, ab == a, abc == ab]
+            .iter()
+            .map(|b| if *b { '1' } else { '0' })
+            .collect();
+        if ab != a && ab != b {
+            tags.push("proper-join".into());
+        }
+        if abc != ab {
+            tags.push("third-operand-matters".into());
+        }
+        let out = format!(
+            "{} {} {} {} {} {bits}",
+            a.render(&keys),
+            b.render(&keys),
+            c.render(&keys),
+            ab.render(&keys),
+            abc.render(&keys)
+        );
+        let nontrivial = !(a == b && b == c);
+        Some((out, viol, tags, nontrivial))
+    });
+    match r {
+        Err(msg) => Outcome::new("panic").tag(ty).tag("panic").violation("panic", format!("merge panicked: {msg}")),
+        Ok(None) => Outcome::new("bad-case").trivial(),
+        Ok(Some((out, viol, mut tags, nontrivial))) => {
+            viol_dedup(tags.as_mut());
+            let mut o = Outcome::new(out);
+            o.violations = viol;
+            o.tags = tags;
+            o.nontrivial = nontrivial;
+            o
+        }
+    }
+}
+
+fn viol_dedup(tags: &mut Vec<String>) {
+    tags.sort();
+    tags.dedup();
+}
+
+const TYPES: &[&str] = &[
+    "max", "min", "bool", "unit", "optmax", "red", "optred", "regmax", "regmin", "regred", "regopt", "gmap", "gmapred",
+    "gmapreg", "gset", "lwwmap", "lwwmapred", "lwwset",
+];
+
+fn run_case(input: &str) -> Outcome {
+    let t: Vec<&str> = input.split(' ').collect();
+    if t.len() != 4 {
+        return Outcome::new("bad-case").trivial();
+    }
+    let (a, b, c) = (t[1], t[2], t[3]);
+    match t[0] {
+        "max" => run_typed::<Max<u8>>(t[0], a, b, c),
+        "min" => run_typed::<Min<u8>>(t[0], a, b, c),
+        "bool" => run_typed::<bool>(t[0], a, b, c),
+        "unit" => run_typed::<()>(t[0], a, b, c),
+        "optmax" => run_typed::<Option<Max<u8>>>(t[0], a, b, c),
+        "red" => run_typed::<Redactable<u8>>(t[0], a, b, c),
+        "optred" => run_typed::<Option<Redactable<u8>>>(t[0], a, b, c),
+        "regmax" => run_typed::<LWWReg<Max<u8>, u8>>(t[0], a, b, c),
+        "regmin" => run_typed::<LWWReg<Min<u8>, u8>>(t[0], a, b, c),
+        "regred" => run_typed::<LWWReg<Redactable<u8>, u8>>(t[0], a, b, c),
+        "regopt" => run_typed::<LWWReg<Option<Max<u8>>, u8>>(t[0], a, b, c),
+        "gmap" => run_typed::<GMap<u8, Max<u8>>>(t[0], a, b, c),
+        "gmapred" => run_typed::<GMap<u8, Redactable<u8>>>(t[0], a, b, c),
+        "gmapreg" => run_typed::<GMap<u8, LWWReg<Option<Max<u8>>, u8>>>(t[0], a, b, c),
+        "gset" => run_typed::<GSet<u8>>(t[0], a, b, c),
+        "lwwmap" => run_typed::<LWWMap<u8, Max<u8>, u8>>(t[0], a, b, c),
+        "lwwmapred" => run_typed::<LWWMap<u8, Redactable<u8>, u8>>(t[0], a, b, c),
+        "lwwset" => run_typed::<LWWSet<u8, Lamport>>(t[0], a, b, c),
+        _ => Outcome::new("bad-case").trivial(),
+    }
+}
+
+// ---------------------------------------------------------------------------------------------
+// Generators.
+
+fn strs(xs: &[&str]) -> Vec<String> {
+    xs.iter().map(|s| s.to_string()).collect()
+}
+
+fn nums(n: u8) -> Vec<String> {
+    (0..n).map(|i| i.to_string()).collect()
+}
+
+/// All maps over `keys` where each key is absent or carries one of `per_key` (already formatted with `{k}`).
+fn products(keys: &[u8], per_key: &dyn Fn(u8) -> Vec<String>) -> Vec<String> {
+    let mut acc: Vec<Vec<String>> = vec![vec![]];
+    for &k in keys {
+        let opts = per_key(k);
+        let mut next = vec![];
+        for base in &acc {
+            next.push(base.clone());
+            for o in &opts {
+                let mut b = base.clone();
+                b.push(o.clone());
+                next.push(b);
+            }
+        }
+        acc = next;
+    }
+    acc.into_iter().map(show_list).collect()
+}
+
+/// Scripts of one or two single-key ops.
+fn upto2(ops: &[String]) -> Vec<String> {
+    let mut v: Vec<String> = ops.to_vec();
+    for a in ops {
+        for b in ops {
+            v.push(format!("{a};{b}"));
+        }
+    }
+    v
+}
+
+/// The exhaustively enumerated operand domains of a type (`thorough` = larger bounds): every triple
+/// over each domain is run.
+fn domains(ty: &str, thorough: bool) -> Vec<Vec<String>> {
+    let (d, extra) = domain(ty, thorough);
+    let mut v = vec![d];
+    if !extra.is_empty() {
+        v.push(extra);
+    }
+    v
+}
+
+fn domain(ty: &str, thorough: bool) -> (Vec<String>, Vec<String>) {
+    let mut extra: Vec<String> = vec![];
+    let d = domain_main(ty, thorough, &mut extra);
+    (d, extra)
+}
+
+fn domain_main(ty: &str, thorough: bool, extra: &mut Vec<String>) -> Vec<String> {
+    let t = thorough;
+    let vals = |vs: &[&str], cs: u8| -> Vec<String> {
+        let mut out = vec![];
+        for v in vs {
+            for c in 0..cs {
+                out.push(format!("{v}@{c}"));
+            }
+        }
+        out
+    };
+    match ty {
+        "max" | "min" => nums(if t { 6 } else { 4 }),
+        "bool" => strs(&["0", "1"]),
+        "unit" => strs(&["u"]),
+        "optmax" => {
+            let mut v = strs(&["-"]);
+            v.extend(nums(if t { 5 } else { 3 }));
+            v
+        }
+        "red" => {
+            let mut v = strs(&["R"]);
+            v.extend(nums(if t { 5 } else { 3 }));
+            v
+        }
+        "optred" => {
+            let mut v = strs(&["-", "R"]);
+            v.extend(nums(if t { 3 } else { 2 }));
+            v
+        }
+        "regmax" | "regmin" | "regred" | "regopt" => {
+            let vs: &[&str] = match ty {
+                "regred" => &["R", "0", "1"],
+                "regopt" => &["-", "0", "1"],
+                _ => &["0", "1", "2"],
+            };
+            // second domain: scripts `new; set` of two writes
+            *extra = upto2(&vals(&vs[..2], 2));
+            if !t {
+                extra.truncate(4 + 4);
+            }
+            vals(vs, if t { 4 } else { 3 })
+        }
+        "gmap" => products(if t { &[0, 1, 2] } else { &[0, 1] }, &|k| vec![format!("{k}=0"), format!("{k}=1")]),
+        "gmapred" => products(&[0, 1], &|k| vec![format!("{k}=R"), format!("{k}=0"), format!("{k}=1")]),
+        "gmapreg" => products(if t { &[0, 1] } else { &[0] }, &|k| {
+            vals(&["-", "0", "1"], 2).into_iter().map(|vc| format!("{k}={vc}")).collect()
+        }),
+        "gset" => products(if t { &[0, 1, 2, 3] } else { &[0, 1, 2] }, &|k| vec![k.to_string()]),
+        "lwwmap" => {
+            let per = |k: u8, cs: u8| -> Vec<String> {
+                let mut v: Vec<String> = (0..cs).map(|c| format!("!{k}@{c}")).collect();
+                v.extend(vals(&["0", "1"], cs).into_iter().map(|vc| format!("+{k}={vc}")));
+                v
+            };
+            if t {
+                products(&[0, 1], &|k| per(k, 2))
+            } else {
+                products(&[0], &|k| per(k, 3))
+            }
+        }
+        "lwwmapred" => {
+            let cs = if t { 3 } else { 2 };
+            products(&[0], &|k| {
+                let mut v: Vec<String> = (0..cs).map(|c| format!("!{k}@{c}")).collect();
+                v.extend(vals(&["R", "0", "1"], cs).into_iter().map(|vc| format!("+{k}={vc}")));
+                v
+            })
+        }
+        "lwwset" => {
+            let cs = if t { 3 } else { 2 };
+            // second domain: one key, scripts of up to two ops (insert-then-remove at equal clocks etc.)
+            let ops: Vec<String> = (0..cs).flat_map(|c| [format!("!0@{c}"), format!("+0@{c}")]).collect();
+            *extra = upto2(&ops);
+            extra.push("-".into());
+            products(&[0, 1], &|k| {
+                let mut v: Vec<String> = (0..cs).map(|c| format!("!{k}@{c}")).collect();
+                v.extend((0..cs).map(|c| format!("+{k}@{c}")));
+                v
+            })
+        }
+        _ => vec![],
+    }
+}
+
+/// A random construction script for `ty`. `tight`: tiny key/clock/value ranges (ties are the norm).
+fn gen_script(rng: &mut Rng, ty: &str, tight: bool) -> String {
+    let key = |rng: &mut Rng| if tight { rng.below(3) } else { *rng.pick(&[0, 1, 2, 7, 100, 254, 255]) };
+    let clock = |rng: &mut Rng, max: u64| if tight { rng.below(3) } else { rng.below(max + 1) };
+    let num = |rng: &mut Rng| if tight { rng.below(3) } else { *rng.pick(&[0, 1, 2, 3, 127, 128, 254, 255]) };
+    let scalar = |rng: &mut Rng, kind: &str| -> String {
+        match kind {
+            "red" => {
+                if rng.chance(1, 4) {
+                    "R".into()
+                } else {
+                    num(rng).to_string()
+                }
+            }
+            "opt" => {
+                if rng.chance(1, 4) {
+                    "-".into()
+                } else {
+                    num(rng).to_string()
+                }
+            }
+            "optred" => match rng.below(5) {
+                0 => "-".into(),
+                1 => "R".into(),
+                _ => num(rng).to_string(),
+            },
+            _ => num(rng).to_string(),
+        }
+    };
+    let n = rng.range(0, 6);
+    let list = |parts: Vec<String>| show_list(parts);
+    match ty {
+        "max" | "min" => num(rng).to_string(),
+        "bool" => rng.below(2).to_string(),
+        "unit" => "u".into(),
+        "optmax" => scalar(rng, "opt"),
+        "red" => scalar(rng, "red"),
+        "optred" => scalar(rng, "optred"),
+        "regmax" | "regmin" | "regred" | "regopt" => {
+            let kind = match ty {
+                "regred" => "red",
+                "regopt" => "opt",
+                _ => "num",
+            };
+            (0..n.max(1)).map(|_| format!("{}@{}", scalar(rng, kind), clock(rng, 255))).collect::<Vec<_>>().join(";")
+        }
+        "gmap" => list((0..n).map(|_| format!("{}={}", key(rng), num(rng))).collect()),
+        "gmapred" => list((0..n).map(|_| format!("{}={}", key(rng), scalar(rng, "red"))).collect()),
+        "gmapreg" => list((0..n).map(|_| format!("{}={}@{}", key(rng), scalar(rng, "opt"), clock(rng, 255))).collect()),
+        "gset" => list((0..n).map(|_| key(rng).to_string()).collect()),
+        "lwwmap" | "lwwmapred" => {
+            let kind = if ty == "lwwmap" { "num" } else { "red" };
+            list(
+                (0..n)
+                    .map(|_| {
+                        if rng.chance(2, 5) {
+                            format!("!{}@{}", key(rng), clock(rng, CL as u64))
+                        } else {
+                            format!("+{}={}@{}", key(rng), scalar(rng, kind), clock(rng, CL as u64))
+                        }
+                    })
+                    .collect(),
+            )
+        }
+        "lwwset" => list(
+            (0..n)
+                .map(|_| format!("{}{}@{}", if rng.chance(2, 5) { '!' } else { '+' }, key(rng), clock(rng, CL as u64)))
+                .collect(),
+        ),
+        _ => "?".into(),
+    }
+}
+
 fn main() {
-    eprintln!("C22: harness not implemented");
-    std::process::exit(3);
+    let mut ctx = Ctx::from_args("C22");
+    if !ctx.run_fixed(run_case) {
+        let thorough = !ctx.quick();
+        // 1. exhaustive: every triple over the small operand domain of every type
+        let mut n_ex = 0u64;
+        for ty in TYPES {
+            let ds = domains(ty, thorough);
+            for d in &ds {
+                for a in d {
+                    for b in d {
+                        for c in d {
+                            let input = format!("{ty} {a} {b} {c}");
+                            let o = run_case(&input);
+                            ctx.count("exhaustive");
+                            ctx.record(&input, o);
+                            n_ex += 1;
+                        }
+                    }
+                }
+            }
+            ctx.note(&format!("exhaustive-domain-{ty}"), ds.iter().map(|d| d.len().to_string()).collect::<Vec<_>>().join("+"));
+        }
+        ctx.note("exhaustive-triples", n_ex);
+        // 2. random longer scripts; composite types weighted up
+        let mut rng = ctx.rng();
+        let weighted: Vec<&str> = TYPES
+            .iter()
+            .flat_map(|t| {
+                let w = if t.starts_with("lww") || t.starts_with("reg") || t.starts_with("gmap") { 4 } else { 1 };
+                std::iter::repeat(*t).take(w)
+            })
+            .collect();
+        for _ in 0..ctx.size(8_000, 400_000) {
+            let ty = *rng.pick(&weighted);
+            let tight = rng.chance(2, 3);
+            let input = format!(
+                "{ty} {} {} {}",
+                gen_script(&mut rng, ty, tight),
+                gen_script(&mut rng, ty, tight),
+                gen_script(&mut rng, ty, tight)
+            );
+            let o = run_case(&input);
+            ctx.count(if tight { "random-tight" } else { "random-wide" });
+            ctx.record(&input, o);
+        }
+    }
+    ctx.finish(
+        "all triples over the small operand domain of each of the 18 instantiated types (keys 0..2, clocks 0..3, values 0..2; \
+         sizes in notes), plus random triples of construction scripts of 0-6 operations (two thirds over keys/clocks/values 0..2 so \
+         that equal-clock conflicts dominate, one third over the full u8 ranges); non-trivial = the three operands are not all \
+         equal; distinct by input text",
+        false,
+    );
 }
